@@ -7,7 +7,7 @@ from lib import recipe, tlc
 DEV_SWALLOW = False
 
 BASE = dict(NJobs=2, Quota=0, Synack=False, GuardLimit=2, Kinds=['ok', 'raise'], Signals=False,
-            Cancels=False, DevSwallow=DEV_SWALLOW)
+            Cancels=False, Refusals=False, DevSwallow=DEV_SWALLOW)
 
 
 def cfg(**kw):
@@ -36,7 +36,7 @@ UNS = ['unpicklable', 'unpicklable_deep', 'unpicklable_badrepr']
 
 FORMULAS = {
     'C03': (['StreamShape', 'OneResultPerJob', 'AckCarries', 'ResultOnlyAfterAccept',
-             'NackHonoured', 'CountsExecutedOnly', 'QuotaRespected'],
+             'NackHonoured', 'CountsExecutedOnly', 'QuotaRespected', 'AcksAnswered'],
             ['CancelRefused', 'EncodingErrorReported']),
     'C08': (['ExitCallbackOnce', 'SignalLeadsOut'],
             ['SignalMeansNoMoreJobs', 'SignalMeansNoGuard']),
@@ -48,10 +48,13 @@ FORMULAS = {
 SCEN = {
     'C03': dict(
         quick=dict(small=[cfg(Kinds=['ok', 'raise', 'baseexc', 'unpicklable']),
-                          cfg(Quota=1, Synack=True, Cancels=True, Kinds=['ok'])],
-                   walks=cfg(NJobs=3, Quota=2, Synack=True, Cancels=True, Kinds=ALLK,
+                          cfg(Quota=1, Synack=True, Cancels=True, Kinds=['ok']),
+                          cfg(NJobs=3, Synack=True, Refusals=True, Kinds=['ok']),
+                          cfg(NJobs=2, Synack=False, Refusals=True, Kinds=['ok'])],
+                   walks=cfg(NJobs=3, Quota=2, Synack=True, Cancels=True, Refusals=True, Kinds=ALLK,
                              Signals=True)),
         thorough=dict(small=[cfg(NJobs=3, Kinds=['ok', 'raise', 'baseexc', 'unpicklable']),
+                             cfg(NJobs=4, Quota=2, Synack=True, Refusals=True, Cancels=True, Kinds=['ok']),
                              cfg(NJobs=3, Quota=2, Synack=True, Cancels=True, Kinds=['ok', 'raise']),
                              cfg(NJobs=2, Quota=1, Synack=True, Cancels=True, Kinds=ALLK)],
                       walks=cfg(NJobs=4, Quota=3, Synack=True, Cancels=True, Kinds=ALLK,
